@@ -1,7 +1,9 @@
 #!/bin/bash
-# evidence-producing quick run of every claimed property, one after the other (idle machine)
+# evidence-producing run of every claimed property, one after the other
+# usage: final_pass.sh [quick|thorough] [jobs]
 cd /verif
+tier=${1:-quick}; jobs=${2:-14}
 for p in $(grep -v '^#' run/ready.txt | sort -u); do
-  ZV_JOBS=14 python3 run/check.py $p > logs/final_$p.log 2>&1
-  echo "$p rc=$? $(tail -n 1 logs/final_$p.log | cut -c1-140)"
+  ZV_JOBS=$jobs python3 run/check.py $p --tier $tier > logs/final_${tier}_$p.log 2>&1
+  echo "$(date +%H:%M) $p rc=$? $(grep obligations= logs/final_${tier}_$p.log | tail -n 1 | cut -c1-140)"
 done
